@@ -130,3 +130,14 @@ def make_wide_clt(rs, n, peaked=False):
     params[root, 1] = params[root, 0]
     scope = list(range(n))
     return BinaryCLT(scope, root=root, tree=pred, params=np.log(params).tolist()), pred
+
+
+def make_fitted_clt(rs, scope, pred):
+    """the chain the XPC learner uses: a tree GIVEN as a predecessor vector at construction, parameters learned by fit() afterwards
+    (structure, root and visiting order must stay the given ones)"""
+    n = len(scope)
+    root = pred.index(-1)
+    clt = BinaryCLT([int(s_) for s_ in scope], root=int(scope[root]), tree=list(pred))
+    data = (rs.rand(int(rs.choice([30, 80])), n) < rs.uniform(0.2, 0.8, size=n)).astype(np.float32)
+    clt.fit(data, [[0, 1]] * n, alpha=float(rs.choice([0.05, 0.5])), random_state=np.random.RandomState(int(rs.randint(1000))))
+    return clt
